@@ -26,7 +26,7 @@ const rtName = "verifsimrt_rt"
 const rtPath = "verifsimrt"
 
 type stats struct {
-	Files, SyncImports, GoStmts, Recvs, Selects, Sends, Renames, MapRanges, PipeSelectors int
+	Files, SyncImports, GoStmts, Recvs, Selects, Sends, Renames, MapRanges, PipeSelectors, Sleeps int
 }
 
 var st stats
@@ -98,6 +98,36 @@ func (r *rewriter) rewritePipeSelectors(f *ast.File) {
 		}
 		return true
 	})
+}
+
+// rewriteSleep (S8): time.Sleep in the rewritten packages becomes a sleep on
+// the simulated clock. (The unchanged tree has none in scope; a change that
+// introduces one must not stall the simulator on a real sleep.)
+func (r *rewriter) rewriteSleep(f *ast.File) {
+	sleeps, otherTime := 0, 0
+	ast.Inspect(f, func(n ast.Node) bool {
+		if se, ok := n.(*ast.SelectorExpr); ok {
+			if id, ok := se.X.(*ast.Ident); ok && id.Name == "time" && id.Obj == nil {
+				if se.Sel.Name == "Sleep" {
+					id.Name = rtName
+					sleeps++
+				} else {
+					otherTime++
+				}
+			}
+		}
+		return true
+	})
+	if sleeps == 0 {
+		return
+	}
+	st.Sleeps += sleeps
+	r.changed, r.needRT = true, true
+	if otherTime == 0 {
+		// keep the "time" import used
+		f.Decls = append(f.Decls, &ast.GenDecl{Tok: token.VAR, Specs: []ast.Spec{&ast.ValueSpec{
+			Names: []*ast.Ident{ast.NewIdent("_")}, Values: []ast.Expr{&ast.SelectorExpr{X: ast.NewIdent("time"), Sel: ast.NewIdent("Nanosecond")}}}}})
+	}
 }
 
 func (r *rewriter) rewriteExpr(e ast.Expr) ast.Expr {
@@ -380,6 +410,7 @@ func processFile(fset *token.FileSet, path string, renames []renameRule) ([]byte
 		}
 	}
 	r.rewritePipeSelectors(f)
+	r.rewriteSleep(f)
 	// S2/S3
 	for _, d := range f.Decls {
 		switch v := d.(type) {
